@@ -612,7 +612,10 @@ func (e *vestEnv) mustSucceedRules(c *fw.Case, o *txOutcome) {
 		}
 		c.ViolateD("C06/valid-withdraw-rejected", map[string]string{"op": op.desc, "log": short(o.res.Log, 400)}, "withdraw-all of an owner with %d pools was rejected: %s", len(o.prePools[op.owner]), short(o.res.Log, 200))
 	case "send":
-		if op.owner != op.signer.Bech() || op.to == op.owner || o.pre.Accounts[op.to] != "" || isModuleAddr(op.to) || op.amount.Sign() <= 0 {
+		if op.owner != op.signer.Bech() || op.to == op.owner || o.pre.Accounts[op.to] != "" || isModuleAddr(op.to) || op.amount.Sign() < 0 {
+			return
+		}
+		if _, aerr := sdk.AccAddressFromBech32(op.to); aerr != nil {
 			return
 		}
 		if op.respelled {
